@@ -124,7 +124,7 @@ def make_case(index, rng, tier):
                 "unix": rng.randrange(3) == 0, "pidfile": rng.randrange(4) != 0,
                 "buggify": {"pyticks": rng.randrange(3) == 0, "fork_child_first": rng.randrange(2) == 0, "spurious_select": rng.randrange(3) == 0,
                             "random_spawn_delay": rng.randrange(2) == 0},
-                "extra": rng.choice([None, None, "second-signal", "killw", "ttou-before", "hup-before", "rm-socket", "burst-before", "hup-rebind"])}
+                "extra": rng.choice([None, None, "second-signal", "killw", "ttou-before", "hup-before", "rm-socket", "burst-before", "hup-rebind", "quit-after-term"])}
     kind = rng.choice(["sync", "gthread", "gevent", "eventlet"])
     clients = []
     for i in range(rng.randrange(1, 4)):
@@ -411,6 +411,14 @@ def run_master(case, choices):
                 sim.fault("master_signal:" + case["extra"])
                 sim.kill(m.pid, int(signal.SIGTTOU if case["extra"] == "ttou-before" else signal.SIGHUP))
         sim.after(max(0.0, case["sig_at"] - 0.4), retire)
+    elif case.get("extra") == "quit-after-term" and case["sig"] == "TERM":
+        # the operator loses patience: QUIT half a second after TERM, while the master waits for workers that take their time
+        def quit_now():
+            if m.state == "running":
+                state["quit_at"] = sim.now
+                sim.fault("master_signal:quit-after-term")
+                sim.kill(m.pid, int(signal.SIGQUIT))
+        sim.after(case["sig_at"] + 0.5, quit_now)
     elif case.get("extra") == "hup-rebind" and case["unix"]:
         # a reload that moves the server to another unix socket path, some time before it is stopped: the file of the first socket is
         # the server's own creation as well
@@ -508,6 +516,12 @@ def run_master(case, choices):
                                     "the master handled %s at t=%.2f and exited %.2f s later (graceful_timeout=%s + 1.5 s slack); %s"
                                     % (case["sig"], t_sig, took, gt, ctx()))
                     booting = any(ft >= t_sig - 1.5 for ft, _pp, _cp, _k in w.forks)      # a worker still booting cannot obey QUIT yet
+                    if state.get("quit_at") is not None and m.exit_time - state["quit_at"] > 1.5 + 1e-6 and t_sig is not None \
+                            and t_sig <= state["quit_at"]:
+                        res.violate("C04:%s:quit-during-graceful-stop-ignored" % fam,
+                                    "TERM at t=%.2f, QUIT at t=%.2f while the master was waiting for its workers: the master only exited %.2f s "
+                                    "after the QUIT (graceful_timeout=%s) - the second signal sat in the queue that stop() never reads; %s"
+                                    % (t_sig, state["quit_at"], m.exit_time - state["quit_at"], gt, ctx()))
                     if case["sig"] != "TERM" and fam == "full" and took > 1.5 + 1e-6 and not booting:
                         # 'promptly, without waiting for requests': with real workers the wait can only come from a worker that does not
                         # leave on QUIT while a request is in flight
